@@ -943,12 +943,10 @@ def check_reader_rows(run, it, fq, nl, rel, case, protocol):
             elif not okelt:
                 okelt = None
         else:
-            okelt = elt == fl
-            if not okelt and elt[0] == "bin" and fl in (elt[2], elt[3]):
+            okelt = True if elt == fl else eqv(elt, fl)       # algebraic: float(j) - 0, 1 * float(j) ... are float(j)
+            if okelt is not True and elt == il:
                 okelt = False
-            elif not okelt and elt == il:
-                okelt = False
-            elif not okelt:
+            elif okelt is False and not (elt[0] == "bin" and fl in (elt[2], elt[3])):
                 okelt = None
     run.ob("R-PROTO", fq, f"{case}:source", oksrc, f"the ids are tokens 2 .. {'cn' if le else 'Nmax'}+1 of the particle's own line", detail,
            witness=None if oksrc else ("Nmax=2, line `1 4 9 8 7 6`: tokens kept are not [9, 8] (the first Nmax)" if not le else "cn=3: tokens other than item[2:5] are stored"),
